@@ -84,6 +84,9 @@ def InRange (p : ElasticNet.Params) : Prop := nonneg p.penalty ∧ unit01 p.l1_r
 def Finite (p : ElasticNet.Params) : Prop := p.penalty.Finite ∧ p.l1_ratio.Finite ∧ p.tolerance.Finite
 instance (p) : Decidable (InRange p) := by unfold InRange; infer_instance
 instance (p) : Decidable (Finite p) := by unfold Finite; infer_instance
+/-- the builder's parameter table (hyperparams.rs:77-83) also gives `max_iterations` the range `[1, inf)`; no guard
+reads that field, so it is not part of the translated `Params`: the full documented range takes it as an argument -/
+def DocRange (p : ElasticNet.Params) (max_iterations : Nat) : Prop := InRange p ∧ 1 ≤ max_iterations
 end ElasticNet
 
 namespace Logistic
@@ -112,12 +115,13 @@ end Tweedie
 namespace Svm
 /-- svm/hyperparams.rs + error.rs: the Platt sub-parameters in their range; "Invalid epsilon" for a negative
 stopping tolerance (`≥ 0`); "Negative C value" — `C` weights strictly positive (setter: "positive");
-"Nu should be in unit range" — `(0, 1]` (0 excluded: setter doc "nu in (0, 1]"). The second component of
-`nu` (the regression epsilon / unused) is unconstrained. -/
+"Nu should be in unit range" — `(0, 1]` (0 excluded: `fit_nu` doc "should be in range (0, 1)", the guard admits 1).
+The second component of `nu` is the C value of nu-regression (`nu_svr(nu, c)`, default 1; `nu_weight` stores nu
+itself, `nu_eps` stores 1): strictly positive like every other C ("Negative C value"). -/
 def InRange (p : Svm.Params) : Prop :=
   Platt.InRange p.platt ∧ nonneg p.solver_params_eps ∧
   (match p.c with | some (c1, c2) => pos c1 ∧ pos c2 | none => True) ∧
-  (match p.nu with | some (nu, _) => nu.Sat (fun q => 0 < q ∧ q ≤ 1) | none => True)
+  (match p.nu with | some (nu, c) => nu.Sat (fun q => 0 < q ∧ q ≤ 1) ∧ pos c | none => True)
 def Finite (p : Svm.Params) : Prop :=
   Platt.Finite p.platt ∧ p.solver_params_eps.Finite ∧
   (match p.c with | some (c1, c2) => c1.Finite ∧ c2.Finite | none => True) ∧
@@ -130,9 +134,12 @@ end Svm
 
 namespace DecisionTree
 /-- trees/hyperparams.rs: "Minimum impurity decrease should be greater than zero"; the guard compares with
-the machine epsilon of the carrier (`F::epsilon()`, here f64) as its notion of "numerically greater than
+the machine epsilon of the carrier (`F::epsilon()`: 2^-52 for f64, 2^-23 for f32; `epsQ`) as its notion of "numerically greater than
 zero"; the setter doc is silent.  Range taken as `≥ ε` (ambiguity listed in the notes).  -- silent -/
-def InRange (p : DecisionTree.Params) : Prop := p.min_impurity_decrease.Sat (fun q => 1 / 4503599627370496 ≤ q)
+def epsQ : Carrier → Rat
+  | .f64 => 1 / 4503599627370496
+  | .f32 => 1 / 8388608
+def InRange (p : DecisionTree.Params) : Prop := p.min_impurity_decrease.Sat (fun q => epsQ p.carrier ≤ q)
 def Finite (p : DecisionTree.Params) : Prop := p.min_impurity_decrease.Finite
 instance (p) : Decidable (InRange p) := by unfold InRange; infer_instance
 instance (p) : Decidable (Finite p) := by unfold Finite; infer_instance
